@@ -480,3 +480,59 @@ func (c *Cfg) EnumStmts(size, maxStmts int, f func([]*N) bool) bool {
 	}
 	return true
 }
+
+// ControlWellFormed reports whether break/continue only occur (in statement position) inside a loop body of the same
+// function, and return only inside a function body: the placements the language defines. A control statement nested
+// in an operand (an array element, an argument, a condition) or outside its construct is outside the documented
+// semantics.
+func ControlWellFormed(prog []*N) bool {
+	for _, n := range prog {
+		if !n.controlOK(false, false, true) {
+			return false
+		}
+	}
+	return true
+}
+
+func (n *N) controlOK(inFunc, inLoop, stmtPos bool) bool {
+	if n == nil {
+		return true
+	}
+	switch n.K {
+	case Return, ReturnVal:
+		if !inFunc || !stmtPos {
+			return false
+		}
+	case Break, Continue:
+		if !inLoop || !stmtPos {
+			return false
+		}
+	}
+	bodyFunc, bodyLoop, bodyStmt := inFunc, inLoop, stmtPos
+	switch n.K {
+	case Func, Lambda, Macro:
+		bodyFunc, bodyLoop, bodyStmt = true, false, true
+	case For:
+		bodyLoop = true
+	}
+	for _, k := range n.Kids {
+		kf, kl, ks := inFunc, inLoop, false
+		if n.K == Lambda { // expression-bodied lambda: its expression is the function's body
+			kf, kl, ks = true, false, false
+		}
+		if !k.controlOK(kf, kl, ks) {
+			return false
+		}
+	}
+	for _, b := range n.Body {
+		if !b.controlOK(bodyFunc, bodyLoop, bodyStmt) {
+			return false
+		}
+	}
+	for _, b := range n.Else {
+		if !b.controlOK(bodyFunc, bodyLoop, bodyStmt) {
+			return false
+		}
+	}
+	return true
+}
